@@ -261,9 +261,15 @@ func (d *loopDrv) exec(a []string) {
 			err = o.f.Close()
 		}
 		d.events = append(d.events, fmt.Sprintf("C%s:%d", a[1], loopErrClass(err)))
-	case "sched":
+	case "sched", "schedus":
 		t := d.timers[atoi(a[1])]
 		dur := time.Duration(atoi(a[3])) * time.Millisecond
+		if a[0] == "schedus" {
+			// a delay with a sub-millisecond part; reported rounded up to milliseconds, like the model's clock
+			dur = time.Duration(atoi(a[3])) * time.Microsecond
+			a = append([]string{}, a...)
+			a[3] = fmt.Sprint((atoi(a[3]) + 999) / 1000)
+		}
 		var err error
 		if a[2] == "once" {
 			err = t.ScheduleOnce(dur, d.tcb(atoi(a[4])))
@@ -463,8 +469,40 @@ func runLoop(c *Case) []string {
 					}
 					_ = syscall.Close(nd)
 				}
+			case "fill":
+				// fill the send buffer of the object's socket / FIFO behind its back (the descriptor is non-blocking): the next
+				// write of the object would block
+				chunk := make([]byte, 1<<16)
+				for {
+					if _, err := syscall.Write(o.f.RawFd(), chunk); err != nil {
+						break
+					}
+				}
 			case "drain":
 				n := atoi(a[2])
+				if n == 0 {
+					// everything: until nothing has arrived for 30 ms
+					big := make([]byte, 1<<20)
+					for {
+						var k int
+						var err error
+						if o.peer != nil {
+							_ = o.peer.SetReadDeadline(time.Now().Add(30 * time.Millisecond))
+							k, err = o.peer.Read(big)
+						} else {
+							k, err = syscall.Read(o.peerFd, big)
+							if err == syscall.EAGAIN {
+								time.Sleep(5 * time.Millisecond)
+								k, err = syscall.Read(o.peerFd, big)
+							}
+						}
+						if err != nil || k <= 0 {
+							break
+						}
+					}
+					time.Sleep(2 * time.Millisecond)
+					return tail("")
+				}
 				b := make([]byte, n)
 				if o.kind == "pkt" {
 					_ = o.pcPeer.SetReadDeadline(time.Now().Add(20 * time.Millisecond))
@@ -503,7 +541,7 @@ func runLoop(c *Case) []string {
 				batch = strings.Join(parts, ",")
 			}
 			return tail(fmt.Sprintf("ret=%d:%d batch=%s ", n, loopErrClass(err), batch))
-		case "start", "cancel", "close", "sched", "tcancel", "tclose", "post":
+		case "start", "cancel", "close", "sched", "schedus", "tcancel", "tclose", "post":
 			d.exec(append([]string{op}, a...))
 			return tail("")
 		}
